@@ -46,16 +46,18 @@ REFUSED_BY_DESIGN = {
 
 MINVAL = 1e-15
 TOL = 1e-9          # closed-form pairs (observed deviations are ~1e-15: see evidence oracle_max_deviation_over_allowed)
-TOL_CCD = 6e-3      # distances of *separated* pairs that go through the iterative native CCD (observed <= 3e-4; penetration
-                    # depths of those pairs (EPA) are not compared at all: they differ by up to 5e-3 between mjc_Convex and
-                    # mj_geomDistance and belong to C15)
+TOL_CCD = 6e-3      # mj_geomDistance of *separated* pairs that go through the iterative native CCD vs closed form / swapped call
+                    # (observed <= 3e-4; penetration depths of those pairs (EPA) are not compared at all: C15)
+TOL_CCD_CONTACT = 0.1   # contact distance of mjc_Convex / mjc_BoxBox vs mj_geomDistance, separated pairs (observed <= 9e-3 with
+                        # margins: mjc_Convex inflates the geoms by the margin and runs EPA); gross errors only, accuracy is C15
 TOL_UNIT = 1e-9     # |n| = 1, orthonormality
 TOL_CCD_WITNESS = 0.25   # witness points of separated convex pairs (observed <= 2.3e-2 with margins: mjc_Convex inflates the
                          # geoms by the margin and runs EPA); only gross errors are caught here, accuracy belongs to C15
 DEFECT_KEY = "c13:frame:plane-capsule-axis-parallel-to-normal"
 DEFECT_KEY_CAPS = "c13:capsule-capsule:parallel-early-return-not-closest"
 DEFECT_KEY_BOX = "c13:box-box:contact-distance-not-geomdistance"
-DEFECT_KEYS = (DEFECT_KEY, DEFECT_KEY_CAPS, DEFECT_KEY_BOX)
+DEFECT_KEY_CCD = "c13:geomdist:ccd-coincident-centres-asymmetric"
+DEFECT_KEYS = (DEFECT_KEY, DEFECT_KEY_CAPS, DEFECT_KEY_BOX, DEFECT_KEY_CCD)
 
 PLANE, SPHERE, CAPSULE, ELLIPSOID, CYLINDER, BOX = (enums.E("mjGEOM_" + n) for n in
                                                     ("PLANE", "SPHERE", "CAPSULE", "ELLIPSOID", "CYLINDER", "BOX"))
@@ -604,7 +606,12 @@ def judge_scene(line, out, dev):
     if pair == (PLANE, CAPSULE):
         n, a = col(g1["mat"], 2), col(g2["mat"], 2)
         frame_zone = norm(sub(a, scl(n, dot(n, a)))) < 1e-6
-    par_caps = pair == (CAPSULE, CAPSULE) and norm(cross(col(g1["mat"], 2), col(g2["mat"], 2))) < 1e-7
+    par_caps = False
+    if pair == (CAPSULE, CAPSULE):
+        # the collider's own branch condition |det| < mjMINVAL, computed as mjraw_CapsuleCapsule computes it
+        ax1, ax2 = scl(col(g1["mat"], 2), g1["size"][1]), scl(col(g2["mat"], 2), g2["size"][1])
+        ma, mb, mc = dot(ax1, ax1), -dot(ax1, ax2), dot(ax2, ax2)
+        par_caps = abs(ma * mc - mb * mb) < MINVAL
     cap_zone_contact = par_caps and capsule_early_return(g1, g2, mg)
     cap_zone_gd = par_caps and (capsule_early_return(G[0], G[1], distmax) or capsule_early_return(G[1], G[0], distmax))
     CAPKEY, BOXKEY = DEFECT_KEY_CAPS, DEFECT_KEY_BOX
@@ -664,7 +671,7 @@ def judge_scene(line, out, dev):
         if pair[0] == PLANE:
             pn = col(g1["mat"], 2)
             chk("planenormal", max(abs(n[i] - pn[i]) for i in range(3)), 1e-12, "normal of a plane contact is not the plane normal")
-        elif not degen:
+        elif not degen and ci == imin:
             cd = sub(g2["pos"], g1["pos"])
             if c["dist"] > 1e-6 or pair == (SPHERE, SPHERE):
                 if not dot(n, cd) > 0:
@@ -685,9 +692,11 @@ def judge_scene(line, out, dev):
                 chk("distance", abs(dmin - ad), atol, "smallest contact distance differs from the closed-form signed distance "
                     "(engine %.17g, closed form %.17g)" % (dmin, ad))
             # completeness of the margin test
-            if ad < mg - 10 * atol and dmin is None:
+            # (claimed only 1e-5 away from the boundary: within ~1e-7 of it a pair can be dropped before the narrow phase;
+            #  the exactly representable boundary scenes cover dist == margin)
+            if ad < mg - 1e-5 and dmin is None:
                 fails.append(("c13:missing:" + pname, "closed-form distance %.17g <= margin+gap %.17g but no contact was reported" % (ad, mg)))
-            if ad > mg + 10 * atol and dmin is not None:
+            if ad > mg + 1e-5 and dmin is not None:
                 fails.append(("c13:spurious:" + pname, "closed-form distance %.17g > margin+gap %.17g but a contact with dist %.17g was reported" % (ad, mg, dmin)))
             if cap_zone_contact and len(fails) > before:
                 del fails[before:]
@@ -697,7 +706,11 @@ def judge_scene(line, out, dev):
     gtol = 1e-12 if exact else TOL_CCD
     before = len(fails)
     ccd_pen = not exact and (gd["d01"] < 1e-6 or gd["d10"] < 1e-6 or (dmin is not None and dmin < 1e-6))
-    chk("geomdist-sym", abs(gd["d01"] - gd["d10"]), gtol, "mj_geomDistance(g1,g2) != mj_geomDistance(g2,g1) (%.17g vs %.17g)" % (gd["d01"], gd["d10"]))
+    if ccd_pen and norm(sub(g1["pos"], g2["pos"])) < 1e-6 and abs(gd["d01"] - gd["d10"]) > TOL_CCD_CONTACT:
+        fails.append((DEFECT_KEY_CCD, "%s with coincident centres: mj_geomDistance depends on the geom order (%.17g vs %.17g)"
+                      % (pname, gd["d01"], gd["d10"])))
+    if not ccd_pen:
+        chk("geomdist-sym", abs(gd["d01"] - gd["d10"]), gtol, "mj_geomDistance(g1,g2) != mj_geomDistance(g2,g1) (%.17g vs %.17g)" % (gd["d01"], gd["d10"]))
     if an is not None and (an[1] or an[0] > 1e-6):
         for nm, dd in (("d01", gd["d01"]), ("d10", gd["d10"])):
             chk("geomdist-closedform", abs(dd - min(an[0], distmax)), an[2] if exact else TOL_CCD,
@@ -719,7 +732,7 @@ def judge_scene(line, out, dev):
                 "fromto of the swapped call is not the reversed segment")
     if dmin is not None and distmax >= mg and not ccd_pen:
         before = len(fails)
-        chk("geomdist-contact", abs(gd["d01"] - min(dmin, distmax)), gtol,
+        chk("geomdist-contact", abs(gd["d01"] - min(dmin, distmax)), gtol if exact else TOL_CCD_CONTACT,
             "mj_geomDistance differs from the smallest contact distance (geomDistance %.17g, contact %.17g)" % (gd["d01"], dmin))
         if len(fails) > before and (cap_zone_gd or cap_zone_contact):
             del fails[before:]
